@@ -300,9 +300,9 @@ pub fn parse_optional_signs<S: TexlangState>(
 
 // TeX.2021.442
 fn parse_character<S: TexlangState>(input: &mut vm::ExpandedStream<S>) -> txl::Result<i32> {
-    // BUG: should be from the unexpanded stream
+    // TeX.2021.442: get_token, the token after ` is not expanded
     let c = {
-        let token = input.next_or_err(CharacterError {})?;
+        let token = input.unexpanded().next_or_err(CharacterError {})?;
         match token.value() {
             Value::CommandRef(token::CommandRef::ControlSequence(cs_name)) => {
                 let name = input.vm().cs_name_interner().resolve(cs_name).unwrap();
